@@ -236,7 +236,19 @@ func (e *stubEnv) external(r *engine.Run, fn *ssa.Function, args []engine.Value,
 		return jenStub(r, ps, fn, args), true
 	}
 	if m, ok := stringsModels[name]; ok {
-		// atoms: uninterpreted treatment is not available for these; only bytes-model strings
+		// atom arguments: predicates become unconstrained booleans (over-approximation); others are unsupported
+		hasAtom := false
+		for _, a := range args {
+			if s, ok := a.(engine.Str); ok && s.Atom != nil {
+				hasAtom = true
+			}
+		}
+		if hasAtom {
+			switch name {
+			case "strings.Contains", "strings.HasPrefix", "strings.HasSuffix", "strings.EqualFold", "strings.ContainsRune":
+				return r.Fresh(engine.BoolSort, "atompred"), true
+			}
+		}
 		return e.model(r, m, args, site)
 	}
 	switch name {
@@ -307,6 +319,10 @@ func (e *stubEnv) external(r *engine.Run, fn *ssa.Function, args []engine.Value,
 	case "path/filepath.Join", "path/filepath.Dir", "path/filepath.Base", "path/filepath.Ext", "path/filepath.IsAbs", "path/filepath.Abs", "path/filepath.Rel", "path/filepath.Clean",
 		"path.Join", "path.Dir", "path.Base":
 		return filepathStub(r, name, args)
+	case "(*bytes.Buffer).String":
+		return engine.Str{Atom: r.Fresh(engine.AtomSort, "bufstring")}, true
+	case "(*bytes.Buffer).WriteString", "(*bytes.Buffer).Write":
+		return engine.Tuple{engine.BVConst(64, 0), engine.Iface{}}, true
 	case "strings.NewReader":
 		o := r.NewOpaque("strings.Reader")
 		o.Items = []engine.Value{args[0]}
@@ -498,12 +514,31 @@ func filepathStub(r *engine.Run, name string, args []engine.Value) (engine.Value
 	}
 	// uninterpreted
 	var argTerms []string
+	opaque := false
 	for _, a := range flat {
 		s, ok := a.(engine.Str)
 		if !ok {
 			return nil, false
 		}
+		if s.Atom == nil {
+			if _, conc := s.Concrete(); !conc {
+				opaque = true // partly symbolic bytes: result is an unconstrained fresh value
+				continue
+			}
+		}
 		argTerms = append(argTerms, r.AsAtom(s).SMT())
+	}
+	if opaque {
+		switch short {
+		case "IsAbs":
+			return r.Fresh(engine.BoolSort, "isabs"), true
+		case "Abs", "Rel":
+			if r.Choice(2) == 0 {
+				return engine.Tuple{engine.Str{Atom: r.Fresh(engine.AtomSort, short)}, engine.Iface{}}, true
+			}
+			return engine.Tuple{engine.Str{}, newError(r, "filepath."+short)}, true
+		}
+		return engine.Str{Atom: r.Fresh(engine.AtomSort, short)}, true
 	}
 	uf := fmt.Sprintf("uf_%s_%d", short, len(argTerms))
 	switch short {
